@@ -85,10 +85,22 @@ Definition links_ok (s : fs) : Prop :=
   forall o body, FSModel.link_body s o = Some body ->
     has_nul body = false /\ N.leb READLINK_BUF (N.of_nat (length body)) = false.
 
+(* descriptors that are not the walk's -- the procfs handle -- stay what they are: a
+   frame [F] of (descriptor, procfs object) pairs the walk never touches *)
+Definition Frame (s : fs) (F : list (Z * nat)) (t : fdt) : Prop :=
+  forall fd p, In (fd, p) F -> tget t fd = Some p /\ (PB s <= p)%nat.
+
+(* the objects of the tree are closed under lookup and parent, and numbered below PB *)
+Definition closed (s : fs) : Prop :=
+  (0 < PB s)%nat /\
+  (forall d n c, FSModel.lookup s d n = Some c -> (c < PB s)%nat) /\
+  (forall o, (o < PB s)%nat -> (FSModel.parent_of s o < PB s)%nat).
+
 (* a check routine that succeeds -- leaving the descriptor table as it was -- whenever
    [cur] is open on the object whose path below the root is [exp] *)
-Definition chk_static_ok (s : fs) (rp : bytes) (chk : Z -> Z -> list bytes -> prog (result unit ekind)) : Prop :=
+Definition chk_static_ok (s : fs) (rp : bytes) (F : list (Z * nat)) (chk : Z -> Z -> list bytes -> prog (result unit ekind)) : Prop :=
   forall t cur root exp o,
+    Frame s F t ->
     tget t root = Some ROOT -> tget t cur = Some o -> FSModel.descend s ROOT exp = Some o ->
     run s rp t (chk cur root exp) = Done t (Ok tt).
 
@@ -97,10 +109,21 @@ Definition chk_static_ok (s : fs) (rp : bytes) (chk : Z -> Z -> list bytes -> pr
 Section SP.
 Variable s : fs.
 Variable rp : bytes.        (* the kernel's rendering of the root directory *)
+Variable F : list (Z * nat).  (* descriptors outside the walk (the procfs handle) *)
+Hypothesis Hclosed : closed s.
 Variable fz : nat.
 Hypothesis Hfz : fz <> 0%nat.
 
 Notation run := (run s rp).
+
+Lemma frame_new t o : Frame s F t -> Frame s F ((fresh t, o) :: t).
+Proof. intros H fd p Hin. destruct (H fd p Hin) as [Hg Hp]. split; [apply tget_new_old, Hg|exact Hp]. Qed.
+
+Lemma frame_del t fd o : Frame s F t -> tget t fd = Some o -> (o < PB s)%nat -> Frame s F (tdel t fd).
+Proof.
+  intros H Hfd Hlt k p Hin. destruct (H k p Hin) as [Hg Hp]. split; [|exact Hp].
+  rewrite tget_del_other; [exact Hg|]. intro E. subst k. rewrite Hfd in Hg. inversion Hg. lia.
+Qed.
 
 Lemma run_bind {A B} (p : prog A) (f : A -> prog B) : forall t,
   run t (bind p f) = match run t p with
@@ -240,20 +263,20 @@ Lemma run_set_cur_fresh t root cur exp0 refs o nxt o' exp :
   InvFd t root cur refs o -> tget t nxt = Some o' -> nxt <> root -> nxt <> cur ->
   exists t' refs',
     run t (set_cur (mk root cur exp0 refs) nxt true exp None) = Done t' (mk root nxt exp refs') /\
-    InvFd t' root nxt refs' o'.
+    InvFd t' root nxt refs' o' /\ (Frame s F t -> (o < PB s)%nat -> Frame s F t').
 Proof.
   intros [Hr Hc Hrc] Hn Hnr Hnc. unfold set_cur, mk. cbn [w_refs w_cur w_root].
   destruct Hrc as [[-> H2]|(Hne & H1c & H1r)].
   - (* current aliases the root *)
     rewrite run_bind, (run_rc_drop_more t root (rc_set nxt 1 refs) 0)
       by (rewrite rc_get_set_other by congruence; exact H2).
-    eexists; eexists; split; [reflexivity|]. split; [exact Hr|exact Hn|]. right.
+    eexists; eexists; split; [reflexivity|]. split; [|intros Hf _; exact Hf]. split; [exact Hr|exact Hn|]. right.
     split; [exact Hnr|split].
     + rewrite rc_get_set_other by congruence. apply rc_get_set_same.
     + apply rc_get_set_same.
   - rewrite run_bind, (run_rc_drop_last t cur (rc_set nxt 1 refs))
       by (rewrite rc_get_set_other by congruence; exact H1c).
-    eexists; eexists; split; [reflexivity|]. split.
+    eexists; eexists; split; [reflexivity|]. split; [|intros Hf Hlt; exact (frame_del t cur o Hf Hc Hlt)]. split.
     + rewrite tget_del_other by congruence. exact Hr.
     + rewrite tget_del_other by congruence. exact Hn.
     + right. split; [exact Hnr|split].
@@ -266,16 +289,17 @@ Lemma run_set_cur_root t root cur exp0 refs o exp :
   InvFd t root cur refs o ->
   exists t' refs',
     run t (set_cur (mk root cur exp0 refs) root false exp None) = Done t' (mk root root exp refs') /\
-    InvFd t' root root refs' ROOT /\ (forall fd, fd <> cur -> tget t' fd = tget t fd).
+    InvFd t' root root refs' ROOT /\ (forall fd, fd <> cur -> tget t' fd = tget t fd) /\
+    (Frame s F t -> (o < PB s)%nat -> Frame s F t').
 Proof.
   intros [Hr Hc Hrc]. unfold set_cur, mk, rc_inc. cbn [w_refs w_cur w_root].
   destruct Hrc as [[-> H2]|(Hne & H1c & H1r)].
   - rewrite H2. rewrite run_bind, (run_rc_drop_more t root (rc_set root 3 refs) 1) by apply rc_get_set_same.
-    eexists; eexists; split; [reflexivity|]. split; [|intros; reflexivity]. split; [exact Hr|exact Hr|]. left.
+    eexists; eexists; split; [reflexivity|]. split; [|split; [intros; reflexivity|intros Hf _; exact Hf]]. split; [exact Hr|exact Hr|]. left.
     split; [reflexivity|apply rc_get_set_same].
   - rewrite H1r. rewrite run_bind, (run_rc_drop_last t cur (rc_set root 2 refs))
       by (rewrite rc_get_set_other by congruence; exact H1c).
-    eexists; eexists; split; [reflexivity|]. split; [|intros; apply tget_del_other; assumption].
+    eexists; eexists; split; [reflexivity|]. split; [|split; [intros; apply tget_del_other; assumption|intros Hf Hlt; exact (frame_del t cur o Hf Hc Hlt)]].
     assert (Hr' : tget (tdel t cur) root = Some ROOT) by (rewrite tget_del_other by congruence; exact Hr).
     split; [exact Hr'|exact Hr'|]. left. split; [reflexivity|].
     rewrite rc_get_set_other by congruence. apply rc_get_set_same.
@@ -338,14 +362,14 @@ Proof. intros (t' & w & -> & H). exists t', w. split; [reflexivity|exact H]. Qed
 (* ---- the check routine: any routine that succeeds when the walk is where it believes to be *)
 
 Variable chk : Z -> Z -> list bytes -> prog (result unit ekind).
-Hypothesis chk_ok : chk_static_ok s rp chk.
+Hypothesis chk_ok : chk_static_ok s rp F chk.
 
 Lemma run_final_check t root cur exp refs o :
-  InvFd t root cur refs o -> FSModel.descend s ROOT exp = Some o ->
+  InvFd t root cur refs o -> Frame s F t -> FSModel.descend s ROOT exp = Some o ->
   Res (run t (final_check_gen chk (mk root cur exp refs))) (FSModel.WOk o).
 Proof.
-  intros [Hr Hc Hrc] Hexp. unfold final_check_gen, mk. cbn [w_cur w_root w_exp w_refs w_stack].
-  rewrite run_bind, (chk_ok t cur root exp o Hr Hc Hexp).
+  intros [Hr Hc Hrc] Hfr Hexp. unfold final_check_gen, mk. cbn [w_cur w_root w_exp w_refs w_stack].
+  rewrite run_bind, (chk_ok t cur root exp o Hfr Hr Hc Hexp).
   destruct Hrc as [[-> H2]|(Hne & H1c & H1r)].
   - rewrite run_bind, (run_rc_drop_more t root refs 0 H2).
     eexists; eexists; split; [reflexivity|]. exists root. cbn [finish r_out r_refs].
@@ -432,16 +456,17 @@ Definition follow_rel (follow : option (wst -> list bytes -> prog wres))
   match follow, fe with
   | None, None => True
   | Some g, Some ge =>
-      forall t root cur exp refs o comps, InvFd t root cur refs o -> path_of o exp -> Forall good comps ->
+      forall t root cur exp refs o comps, InvFd t root cur refs o -> Frame s F t -> (o < PB s)%nat ->
+        path_of o exp -> Forall good comps ->
         Res (run t (g (mk root cur exp refs) comps)) (ge o (length exp) comps)
   | _, _ => False
   end.
 
 Lemma walk_open_static follow fe inner einner remaining rest t root cur refs o part expn :
   follow_rel follow fe ->
-  (forall t root cur exp refs o, InvFd t root cur refs o -> path_of o exp ->
+  (forall t root cur exp refs o, InvFd t root cur refs o -> Frame s F t -> (o < PB s)%nat -> path_of o exp ->
      Res (run t (inner (mk root cur exp refs) rest)) (einner o (length exp) rest)) ->
-  InvFd t root cur refs o -> good part -> Forall good rest ->
+  InvFd t root cur refs o -> Frame s F t -> (o < PB s)%nat -> good part -> Forall good rest ->
   (forall nxt, sem_open s o part = inl nxt -> path_of nxt expn) ->
   (forall nxt body, sem_open s o part = inl nxt -> FSModel.link_body s nxt = Some body -> path_of o (pop_exp expn)) ->
   Res (run t (walk_open fz ps chk fin nosym nf follow inner remaining rest (mk root cur expn refs) part))
@@ -461,7 +486,8 @@ Lemma walk_open_static follow fe inner einner remaining rest t root cur refs o p
            end
        end).
 Proof.
-  intros Hfollow Hinner Hinv [Hnul Hsl] Hrest Hexp Hpop.
+  intros Hfollow Hinner Hinv Hfr Holt [Hnul Hsl] Hrest Hexp Hpop.
+  destruct Hclosed as (HPB & Hcl_l & Hcl_p).
   pose proof Hinv as [Hr Hc Hrc]. unfold mk in *.
   unfold walk_open. rewrite Hsl. cbn [w_cur w_root w_exp w_refs w_stack].
   rewrite run_bind, (run_openat t cur o part Hc Hnul Hsl).
@@ -474,11 +500,17 @@ Proof.
   assert (Hnr : nx <> root) by (apply (fresh_neq t root ROOT Hr)).
   assert (Hnc : nx <> cur) by (apply (fresh_neq t cur o Hc)).
   assert (Hinv1 : InvFd t1 root cur refs o) by (split; assumption).
+  assert (Hfr1 : Frame s F t1) by (apply frame_new, Hfr).
+  assert (Hdlt : (d < PB s)%nat).
+  { unfold sem_open in Eo. destruct (negb (FSModel.is_dir s o)); [discriminate|].
+    destruct (is_dot part); [inversion Eo; subst; exact Holt|].
+    destruct (is_dotdot part); [inversion Eo; subst; apply Hcl_p, Holt|].
+    destruct (FSModel.lookup s o part) as [c|] eqn:El; [|discriminate]. inversion Eo; subst. exact (Hcl_l o part d El). }
   specialize (Hexp d eq_refl).
   (* the check after a '..' step *)
   rewrite run_bind.
   assert (Hchk : run t1 (if is_dotdot part then chk nx root expn else Ret (Ok tt)) = Done t1 (Ok tt)).
-  { destruct (is_dotdot part); [apply (chk_ok t1 nx root expn d Hr1 Hn1 Hexp)|reflexivity]. }
+  { destruct (is_dotdot part); [apply (chk_ok t1 nx root expn d Hfr1 Hr1 Hn1 Hexp)|reflexivity]. }
   rewrite Hchk. clear Hchk.
   rewrite run_bind, (run_fstatat t1 nx d Hn1). cbn [st_mode].
   rewrite symlink_mode_of. rewrite link_body_kind.
@@ -486,17 +518,17 @@ Proof.
   all: try (
     (* not a link: current = next; continue *)
     unfold stack_pop_part; cbn [w_stack w_refs w_root w_cur w_exp bind];
-    destruct (run_set_cur_fresh t1 root cur expn refs o nx d expn Hinv1 Hn1 Hnr Hnc) as (t2 & refs2 & Hrun & Hinv2);
+    destruct (run_set_cur_fresh t1 root cur expn refs o nx d expn Hinv1 Hn1 Hnr Hnc) as (t2 & refs2 & Hrun & Hinv2 & Hfr2);
     rewrite run_bind; unfold mk in Hrun; rewrite Hrun;
-    apply (Hinner t2 root nx expn refs2 d Hinv2 Hexp)).
+    apply (Hinner t2 root nx expn refs2 d Hinv2 (Hfr2 Hfr1 Holt) Hdlt Hexp)).
   (* a link *)
   assert (Hb : FSModel.link_body s d = Some body) by (rewrite link_body_kind, Ek; reflexivity).
   specialize (Hpop d body eq_refl Hb).
   destruct (is_nil rest && nf).
   { (* trailing link, not followed: it is the result *)
-    destruct (run_set_cur_fresh t1 root cur expn refs o nx d expn Hinv1 Hn1 Hnr Hnc) as (t2 & refs2 & Hrun & Hinv2).
+    destruct (run_set_cur_fresh t1 root cur expn refs o nx d expn Hinv1 Hn1 Hnr Hnc) as (t2 & refs2 & Hrun & Hinv2 & Hfr2).
     rewrite run_bind. unfold mk in Hrun. rewrite Hrun.
-    apply (run_final_check t2 root nx expn refs2 d Hinv2 Hexp). }
+    apply (run_final_check t2 root nx expn refs2 d Hinv2 (Hfr2 Hfr1 Holt) Hexp). }
   destruct nosym.
   { apply fails_res_err, (run_ret_partial t1 root cur expn refs (Some nx) remaining (OsError ELOOP) Hrc). }
   rewrite run_bind.
@@ -512,13 +544,14 @@ Proof.
   rewrite run_bind.
   destruct (is_abs body) eqn:Eabs.
   - rewrite (run_is_magiclink t1 nx d Hn1 (link_lt d body Hb)).
-    destruct (run_set_cur_root t1 root cur (pop_exp expn) refs o [] Hinv1) as (t2 & refs2 & Hrun & Hinv2 & Hsame).
+    destruct (run_set_cur_root t1 root cur (pop_exp expn) refs o [] Hinv1) as (t2 & refs2 & Hrun & Hinv2 & Hsame & Hfr2).
     rewrite run_bind. unfold mk in Hrun. rewrite Hrun.
     rewrite run_bind, run_close.
-    apply (Hfollow (tdel t2 nx) root root [] refs2 ROOT _); [|exact path_root|exact Hgood].
+    assert (Hn2 : tget t2 nx = Some d) by (rewrite Hsame by exact Hnc; exact Hn1).
+    apply (Hfollow (tdel t2 nx) root root [] refs2 ROOT _); [|exact (frame_del t2 nx d (Hfr2 Hfr1 Holt) Hn2 Hdlt)|exact HPB|exact path_root|exact Hgood].
     destruct Hinv2 as [Hr2 Hc2 Hrc2]. split; [rewrite tget_del_other by congruence; exact Hr2 ..|exact Hrc2].
   - cbn [Static.run bind w_stack w_refs w_root w_cur w_exp]. rewrite run_bind, run_close.
-    apply (Hfollow (tdel t1 nx) root cur (pop_exp expn) refs o _); [|exact Hpop|exact Hgood].
+    apply (Hfollow (tdel t1 nx) root cur (pop_exp expn) refs o _); [|exact (frame_del t1 nx d Hfr1 Hn1 Hdlt)|exact Holt|exact Hpop|exact Hgood].
     split; [rewrite tget_del_other by congruence; assumption ..|exact Hrc].
 Qed.
 
@@ -540,16 +573,18 @@ Lemma sem_open_name o n : is_dot n = false -> is_dotdot n = false ->
 Proof. intros H1 H2. unfold sem_open. rewrite H1, H2. destruct (FSModel.is_dir s o); reflexivity. Qed.
 
 Lemma walk_body_static follow fe : follow_rel follow fe ->
-  forall comps t root cur exp refs o, InvFd t root cur refs o -> path_of o exp -> Forall good comps ->
+  forall comps t root cur exp refs o, InvFd t root cur refs o -> Frame s F t -> (o < PB s)%nat ->
+    path_of o exp -> Forall good comps ->
     Res (run t (walk_body fz ps chk fin nosym nf follow (mk root cur exp refs) comps))
         (FSModel.ebody s nf nosym fe o (length exp) comps).
 Proof.
-  intros Hfollow comps. induction comps as [|part0 rest IH]; intros t root cur exp refs o Hinv Hpath Hgood.
+  intros Hfollow comps. induction comps as [|part0 rest IH]; intros t root cur exp refs o Hinv Hfr Holt Hpath Hgood.
   { cbn [walk_body FSModel.ebody]. apply run_final_check; assumption. }
+  destruct Hclosed as (HPB & _ & _).
   inversion Hgood as [|x l Hg0 Hgrest]; subst x l.
   cbn [walk_body FSModel.ebody]. unfold mk. cbn [w_exp w_root w_cur w_refs w_stack].
   fold (mk root cur exp refs).
-  assert (Hinner : forall t root cur exp refs o, InvFd t root cur refs o -> path_of o exp ->
+  assert (Hinner : forall t root cur exp refs o, InvFd t root cur refs o -> Frame s F t -> (o < PB s)%nat -> path_of o exp ->
             Res (run t (walk_body fz ps chk fin nosym nf follow (mk root cur exp refs) rest))
                 (FSModel.ebody s nf nosym fe o (length exp) rest)).
   { intros. apply IH; assumption. }
@@ -557,7 +592,7 @@ Proof.
   { (* "" : openat(cur, ".") *)
     cbn [orb].
     pose proof (walk_open_static follow fe _ _ (join_slash (part0 :: rest)) rest t root cur refs o [DOT] exp
-                  Hfollow Hinner Hinv good_dot Hgrest) as H.
+                  Hfollow Hinner Hinv Hfr Holt good_dot Hgrest) as H.
     rewrite sem_open_dot in H. destruct (FSModel.is_dir s o) eqn:Ed.
     - rewrite (dir_no_body o Ed) in H. apply H; [intros nxt E; inversion E; subst; exact Hpath|].
       intros nxt body E Hb. inversion E; subst. rewrite (dir_no_body _ Ed) in Hb. discriminate.
@@ -565,7 +600,7 @@ Proof.
   destruct (is_dot part0) eqn:Edot.
   { cbn [orb]. apply is_dot_eq in Edot. subst part0.
     pose proof (walk_open_static follow fe _ _ (join_slash ([DOT] :: rest)) rest t root cur refs o [DOT] exp
-                  Hfollow Hinner Hinv good_dot Hgrest) as H.
+                  Hfollow Hinner Hinv Hfr Holt good_dot Hgrest) as H.
     rewrite sem_open_dot in H. destruct (FSModel.is_dir s o) eqn:Ed.
     - rewrite (dir_no_body o Ed) in H. apply H; [intros nxt E; inversion E; subst; exact Hpath|].
       intros nxt body E Hb. inversion E; subst. rewrite (dir_no_body _ Ed) in Hb. discriminate.
@@ -576,12 +611,12 @@ Proof.
     destruct exp as [|e0 exp'].
     - (* at the root: current = root *)
       cbn [length]. unfold stack_pop_part. cbn [w_stack w_refs w_root w_cur w_exp bind mk].
-      destruct (run_set_cur_root t root cur [] refs o [] Hinv) as (t2 & refs2 & Hrun & Hinv2 & _).
-      rewrite run_bind. unfold mk in Hrun. rewrite Hrun. apply (Hinner t2 root root [] refs2 ROOT Hinv2 path_root).
+      destruct (run_set_cur_root t root cur [] refs o [] Hinv) as (t2 & refs2 & Hrun & Hinv2 & _ & Hfr2).
+      rewrite run_bind. unfold mk in Hrun. rewrite Hrun. apply (Hinner t2 root root [] refs2 ROOT Hinv2 (Hfr2 Hfr Holt) HPB path_root).
     - set (exp := e0 :: exp') in *.
       assert (Hne : exp <> []) by discriminate.
       pose proof (walk_open_static follow fe _ _ (join_slash ([DOT; DOT] :: rest)) rest t root cur refs o [DOT; DOT] (pop_exp exp)
-                    Hfollow Hinner Hinv (conj eq_refl eq_refl) Hgrest) as H.
+                    Hfollow Hinner Hinv Hfr Holt (conj eq_refl eq_refl) Hgrest) as H.
       rewrite sem_open_dotdot in H.
       assert (Hlen : length exp = S (length (pop_exp exp))).
       { unfold pop_exp. destruct (exists_last Hne) as (e & n & ->). rewrite removelast_last, app_length. cbn. lia. }
@@ -593,7 +628,7 @@ Proof.
       + apply H; intros; discriminate. }
   (* an ordinary name *)
   pose proof (walk_open_static follow fe _ _ (join_slash (part0 :: rest)) rest t root cur refs o part0 (exp ++ [part0])
-                Hfollow Hinner Hinv Hg0 Hgrest) as H.
+                Hfollow Hinner Hinv Hfr Holt Hg0 Hgrest) as H.
   rewrite (sem_open_name o part0 Edot Edd) in H.
   assert (Hpe : pop_exp (exp ++ [part0]) = exp) by (unfold pop_exp; apply removelast_last).
   rewrite Hpe in H. rewrite app_length in H. cbn [length] in H. rewrite Nat.add_1_r in H.
@@ -609,16 +644,16 @@ Qed.
 (* ---- the whole walk ------------------------------------------------------------------ *)
 
 Lemma walk_gen_static bd : forall comps t root cur exp refs o,
-  InvFd t root cur refs o -> path_of o exp -> Forall good comps ->
+  InvFd t root cur refs o -> Frame s F t -> (o < PB s)%nat -> path_of o exp -> Forall good comps ->
   Res (run t (walk_gen fz ps chk fin (S bd) nosym nf (mk root cur exp refs) comps))
       (FSModel.ewalk_q s nf nosym bd o (length exp) comps).
 Proof.
-  induction bd as [|b IH]; intros comps t root cur exp refs o Hinv Hp Hg.
+  induction bd as [|b IH]; intros comps t root cur exp refs o Hinv Hfr Holt Hp Hg.
   - cbn [walk_gen FSModel.ewalk_q]. apply (walk_body_static None None I); assumption.
   - change (walk_gen fz ps chk fin (S (S b)) nosym nf)
       with (walk_body fz ps chk fin nosym nf (Some (walk_gen fz ps chk fin (S b) nosym nf))).
     cbn [FSModel.ewalk_q]. apply (walk_body_static (Some _) (Some _)); [|assumption ..].
-    intros t' r c e rf o' cs Hi Hp' Hg'. apply IH; assumption.
+    intros t' r c e rf o' cs Hi Hf' Ho' Hp' Hg'. apply IH; assumption.
 Qed.
 
 Lemma max_links_S : N.to_nat MAX_SYMLINK_TRAVERSALS = S FSModel.EMU_LINKS.
@@ -626,14 +661,14 @@ Proof. vm_compute. reflexivity. Qed.
 
 (* opath::resolve on the static kernel = FSModel.ewalk *)
 Theorem resolve_static t root path :
-  tget t root = Some ROOT -> has_nul path = false ->
+  Frame s F t -> tget t root = Some ROOT -> has_nul path = false ->
   match FSModel.ewalk s path nf nosym with
   | FSModel.WOk o => exists t' fd, run t (resolve_gen fz ps chk root path nosym nf) = Done t' (Ok fd) /\ tget t' fd = Some o
   | FSModel.WErr n => exists t', run t (resolve_gen fz ps chk root path nosym nf) = Done t' (Err (OsError n))
   | FSModel.WBudget => exists t', run t (resolve_gen fz ps chk root path nosym nf) = Done t' (Err (OsError ELOOP))
   end.
 Proof.
-  intros Hroot Hnul.
+  intros Hfr Hroot Hnul. destruct Hclosed as (HPB & _ & _).
   unfold resolve_gen, do_resolve_gen, bindR. rewrite !run_bind.
   (* the dup of the root *)
   assert (Hdup : run t (os (dup_cloexec root)) = Done ((fresh t, ROOT) :: t) (Ok (fresh t))).
@@ -653,7 +688,7 @@ Proof.
     - eexists; reflexivity.
     - unfold unwrap_rc. rewrite Hrc. cbn [bind Static.run]. unfold answer. cbn [sem]. eexists; reflexivity. }
   rewrite run_bind, max_links_S.
-  pose proof (walk_gen_static FSModel.EMU_LINKS (raw_components path) t1 rd rd [] [(rd, 2%nat)] ROOT Hinv path_root
+  pose proof (walk_gen_static FSModel.EMU_LINKS (raw_components path) t1 rd rd [] [(rd, 2%nat)] ROOT Hinv (frame_new t ROOT Hfr) HPB path_root
                 (good_components path Hnul)) as (t2 & w & Hrun & Hres).
   unfold mk in Hrun. rewrite Hrun. cbn [Static.run length] in *.
   destruct (FSModel.ewalk_q s nf nosym FSModel.EMU_LINKS ROOT 0 (raw_components path)) as [o|n|].
@@ -687,23 +722,23 @@ Qed.
 (* RootRef::resolve_parent + name on the emulated backend, on a static tree: the
    descriptor the *at call will be made on is open on exactly the object the pure
    walk of the prefix ends on; the name is path_split's last component *)
-Theorem parent_and_name_static s rp fz o2 pfuel gh ps df rs t root path dirp name :
-  fz <> 0%nat -> chk_static_ok s rp (check_current fz o2 pfuel gh) -> FSProofs.wf s df -> links_ok s ->
+Theorem parent_and_name_static s rp F fz o2 pfuel gh ps df rs t root path dirp name :
+  closed s -> fz <> 0%nat -> chk_static_ok s rp F (check_current fz o2 pfuel gh) -> FSProofs.wf s df -> links_ok s ->
   rs_kernel rs = false ->
   path_split path = Some (Ok (dirp, Some name)) -> has_nul dirp = false ->
-  tget t root = Some ROOT ->
+  Frame s F t -> tget t root = Some ROOT ->
   match FSModel.ewalk s dirp false (has (rs_flags rs) RESOLVE_NO_SYMLINKS) with
   | FSModel.WOk o => exists t' fd, run s rp t (parent_and_name fz o2 pfuel gh ps rs root path) = Done t' (Ok (fd, name)) /\ tget t' fd = Some o
   | FSModel.WErr n => exists t', run s rp t (parent_and_name fz o2 pfuel gh ps rs root path) = Done t' (Err (OsError n))
   | FSModel.WBudget => exists t', run s rp t (parent_and_name fz o2 pfuel gh ps rs root path) = Done t' (Err (OsError ELOOP))
   end.
 Proof.
-  intros Hfz Hchk Hwf Hl Hk Hsplit Hnul Hroot.
+  intros Hcl Hfz Hchk Hwf Hl Hk Hsplit Hnul Hfr Hroot.
   pose proof (parent_and_name_shape fz o2 pfuel gh ps rs root path) as Hshape. rewrite Hsplit in Hshape.
   destruct Hshape as (Hpeq & _ & _).
   rewrite (run_peq s rp _ _ Hpeq t). unfold bindR. rewrite (run_bind s rp).
   unfold r_resolve. rewrite Hk, resolve_is_gen.
-  pose proof (resolve_static s rp fz Hfz _ Hchk df Hwf Hl ps (has (rs_flags rs) RESOLVE_NO_SYMLINKS) false t root dirp Hroot Hnul) as H.
+  pose proof (resolve_static s rp F Hcl fz Hfz _ Hchk df Hwf Hl ps (has (rs_flags rs) RESOLVE_NO_SYMLINKS) false t root dirp Hfr Hroot Hnul) as H.
   destruct (FSModel.ewalk s dirp false (has (rs_flags rs) RESOLVE_NO_SYMLINKS)) as [o|n|].
   - destruct H as (t' & fd & -> & Hfd). exists t', fd. split; [reflexivity|exact Hfd].
   - destruct H as (t' & ->). exists t'. reflexivity.
@@ -720,8 +755,8 @@ From PV Require Import CheckProofs.
 
 Definition names_ok (s : fs) : Prop := forall d n c, FSModel.lookup s d n = Some c -> name_ok n.
 
-Definition getpath_ok (s : fs) (rp : bytes) (rootcomps : list bytes) (g : Z -> prog (result bytes ekind)) : Prop :=
-  forall t fd o exp, tget t fd = Some o -> FSModel.descend s ROOT exp = Some o ->
+Definition getpath_ok (s : fs) (rp : bytes) (F : list (Z * nat)) (rootcomps : list bytes) (g : Z -> prog (result bytes ekind)) : Prop :=
+  forall t fd o exp, Frame s F t -> tget t fd = Some o -> FSModel.descend s ROOT exp = Some o ->
     exists p, run s rp t (g fd) = Done t (Ok p) /\ is_abs p = true /\ nf p = rootcomps ++ exp.
 
 Lemma descend_names s : names_ok s -> forall exp c o, FSModel.descend s c exp = Some o -> Forall name_ok exp.
@@ -750,13 +785,13 @@ Proof.
   rewrite Hn. apply list_beq_refl.
 Qed.
 
-Theorem check_current_static s rp rootcomps g :
-  names_ok s -> getpath_ok s rp rootcomps g -> chk_static_ok s rp (check_current_gen g).
+Theorem check_current_static s rp F rootcomps g :
+  names_ok s -> getpath_ok s rp F rootcomps g -> chk_static_ok s rp F (check_current_gen g).
 Proof.
-  intros Hnames Hg t cur root exp o Hroot Hcur Hexp.
+  intros Hnames Hg t cur root exp o Hfr Hroot Hcur Hexp.
   unfold check_current_gen, bindR.
-  destruct (Hg t root ROOT [] Hroot eq_refl) as (p1 & Hrun1 & Habs1 & Hnf1). rewrite app_nil_r in Hnf1.
-  destruct (Hg t cur o exp Hcur Hexp) as (p2 & Hrun2 & Habs2 & Hnf2).
+  destruct (Hg t root ROOT [] Hfr Hroot eq_refl) as (p1 & Hrun1 & Habs1 & Hnf1). rewrite app_nil_r in Hnf1.
+  destruct (Hg t cur o exp Hfr Hcur Hexp) as (p2 & Hrun2 & Habs2 & Hnf2).
   rewrite run_bind, Hrun1. rewrite run_bind, Hrun2.
   assert (E : path_eq p2 (push_all p1 ([DOT] :: exp)) = true).
   { apply path_eq_of_nf; [exact Habs2|apply is_abs_push_all, Habs1|].
